@@ -676,14 +676,14 @@ func (in *Interp) builtin(act *activation, b *ssa.BasicBlock, instr ssa.CallInst
 				if len(x.Dir) == 0 || x.Cell != nil {
 					ec := *e
 					ec.fpOK = false
-					ec.From = nil
+					ec.From = resultTags(e.From)
 					// elements that come from a param-rooted slice keep their own paths through r.Dir below
 					if x.Cell != nil && x.Cell.find() == c && baseSel(x.CSel) == "" {
 						// appending to itself: nothing new
 					} else if x.Cell != nil {
 						cc := in.cellRead(x.Cell, x.CSel+"[?]")
 						c2 := *cc
-						c2.From = nil
+						c2.From = resultTags(cc.From)
 						c2.fpOK = false
 						in.cellWrite(c, "[*]", &c2)
 					} else {
@@ -713,6 +713,18 @@ func (in *Interp) builtin(act *activation, b *ssa.BasicBlock, instr ssa.CallInst
 		return &Val{}
 	}
 	return in.blob("builtin:"+name, args)
+}
+
+// resultTags keeps the result tags of a value (which squeeze produced it) and drops the markers of the
+// local cell it was loaded from ("c:…"): an element appended to a slice is still the same squeeze result.
+func resultTags(from []string) []string {
+	var out []string
+	for _, f := range from {
+		if !strings.HasPrefix(f, "c:") {
+			out = append(out, f)
+		}
+	}
+	return out
 }
 
 // ---------------------------------------------------------------- purity of gadget-layer functions
